@@ -11,6 +11,9 @@ type Scenario struct {
 	Race bool
 	// Instrument: the worker is built against a scratch copy of the tree with statement-level yield points (cmd/instr).
 	Instrument bool
+	// CLI: the scenario runs the repository's command-line runner; simctl builds it (time.Now rewritten to a simulated
+	// clock in a scratch copy of executor.go) and passes its path in VERIF_CLI_BIN.
+	CLI bool
 	// CrashIsViolation: a crash (stack overflow) or hang of the worker inside a run is a violation, not infrastructure trouble.
 	CrashIsViolation bool
 	// QuickRuns / ThoroughRuns: number of seeded runs per tier.
